@@ -1,9 +1,10 @@
 """C13 — tags on the wire are exactly the type's tags (DESIGN §5 C13)."""
 import json
 
-from harness import common, gen, codec, wire
+from harness import common, gen, codec, wire, sigs
 from pyasn1.type import tag as ptag
 from pyasn1.codec.ber import encoder as ber_encoder
+from pyasn1.codec.ber import decoder as ber_decoder
 
 NUMS = [0, 1, 30, 31, 127, 128, 16383, 16384, 2 ** 32, 2 ** 64 + 1]
 BASES = [('bool',), ('int',), ('enum',), ('bits',), ('null',), ('oid',), ('real',), ('str', 4), ('str', 12),
@@ -172,6 +173,26 @@ def run(rep, tier, seed):
             if d[0] != 'ok' or not gen.val_equiv(t, d[1], v) or d[2] != b'':
                 sig = 'E1-stray-eoo' if (not defMode and wire.e1_applies(t, v)) else 'own-type-rejects'
                 rep.fail(sig, 'decoding with the encoding type: %r' % (d[:3],), dict(replay, bytes=b.hex(), defMode=defMode))
+            # --- deriving sibling types from the same type object leaves the tags it stamps on its values alone
+            if defMode:
+                try:
+                    schema.subtype(implicitTag=ptag.Tag(ptag.tagClassPrivate, ptag.tagFormatSimple, 77))
+                    schema.subtype(explicitTag=ptag.Tag(ptag.tagClassApplication, ptag.tagFormatConstructed, 78))
+                    schema.clone()
+                    b2 = bytes(ber_encoder.encode(gen.build_value(t, v, schema)))
+                    o3, rest3 = ber_decoder.decode(b, asn1Spec=schema)
+                    b3 = bytes(ber_encoder.encode(o3))
+                except Exception as e:  # noqa
+                    b2 = b3 = repr(e).encode()
+                rep.count('after-siblings')
+                if b2 != b:
+                    rep.fail('tags-after-deriving-siblings', 'a value built from the type object after sibling types were derived '
+                             'from it encodes as %s, from a fresh type object %s' % (b2.hex()[:80], b.hex()[:80]),
+                             dict(replay, bytes=b.hex(), history='subtype(implicit), subtype(explicit), clone, then clone(value)'))
+                elif b3 != b and not sigs.has_constructed_default(t) and not sigs.has_real_default(t):
+                    rep.fail('decoded-tags-after-deriving-siblings', 'decoding with the type object after sibling types were derived '
+                             'from it and re-encoding gives %s, not the input %s' % (b3.hex()[:80], b.hex()[:80]),
+                             dict(replay, bytes=b.hex()))
             # --- rejected by every single-position perturbation
             if depth >= 1 and defMode:
                 for pos in range(depth):
